@@ -68,6 +68,18 @@ CHECKS = {
         technique='format semantics in TLA+ (Formats.tla); real ptb_of -> read_ptb and ja_of -> read_ccgbank round trips (plain and with bank dependency annotations) and truncated PTB lines, trace-validated by RenderTrace.tla',
         text='trees over the English (PTB) and Japanese (bank format) lexicons incl. unary nodes and bracket tokens are printed by the real encoders and read by the real readers; categories, shape, words and (Japanese) rule symbols of every node are compared in TLA+; incomplete PTB lines must raise; tokens containing a round bracket inside a longer word are a recorded known finding (probe batches)',
         ref='6/C20'),
+    'C12': dict(
+        technique='(a) label invariant of AStar.tla + trace validation of parser trees against the creating grammar result; (b) reader trees (read_auto, read_xml, read_jigg_xml, read_ptb, Tree.of_nltk_tree) trace-validated against the rules deriving each node (Formats!ReadFails)',
+        text='(a) every node of every tree returned by the real parser must carry label, symbol and head direction of a grammar result with the node category for its children (synthetic grammars with several differently labelled results per pair and unary input, real en/ja grammars); (b) grammar-licensed trees and trees with one deliberately underivable node are printed by the real encoders and read back: derivable binary nodes must carry the label (and, without a head field, the head direction) of a rule deriving the category, underivable ones unk',
+        ref='6/C12'),
+    'C15': dict(
+        technique='Jigg XML integrity / reference resolution / tiling and reader-tree comparison specified in TLA+ (Formats.tla); real xml_of->read_xml, to_jigg_xml->read_jigg_xml, and build_ccg_tree / normalize_tokens on the XML captured at the ccg2lambda boundary, trace-validated',
+        text='C&C XML (English) and Jigg XML (Japanese) written by the real encoders are re-read by the real readers and compared node by node; every Jigg sentence must have unique span ids, resolving child/terminal references, tiling offsets and exactly one root; ccg2lambda\'s real build_ccg_tree must rebuild a tree isomorphic to the derivation with the template vocabulary\'s labels (label strings for English, symbols for Japanese) and normalize_tokens must yield identifiers starting with _ and free of . , ( ) ! -',
+        ref='6/C15'),
+    'C18': dict(
+        technique='PrintHistory.tla (Render leaves objs unchanged) model-checked; all TLC-generated format sequences replayed on one persistent result object, snapshots and outputs trace-validated (PrintTrace.tla, stateful)',
+        text='TLC enumerates all sequences of 3 formats over 12 formats; each (sampled in quick, all in thorough, plus longer random ones) is replayed on one real result object; after every rendering the projection of all trees / categories / tokens must equal the one before it and the output must equal that of a fresh copy',
+        ref='6/C18'),
 }
 NOT_YET = 'check not built yet (build in progress; see DESIGN.md section 12)'
 
